@@ -59,6 +59,22 @@ Proof.
   destruct a; [reflexivity|cbn in L; lia].
 Qed.
 
+Lemma nth_error_set_nth_neq {X} : forall (l : list X) i j x, i <> j -> nth_error (set_nth i x l) j = nth_error l j.
+Proof.
+  induction l as [|a l IH]; intros i j x H; destruct i, j; cbn; auto; congruence.
+Qed.
+
+Lemma map_set_nth {X Y} (f : X -> Y) : forall (l : list X) i x, map f (set_nth i x l) = set_nth i (f x) (map f l).
+Proof. induction l as [|a l IH]; intros i x; destruct i; cbn; auto. rewrite IH. reflexivity. Qed.
+
+Lemma nth_error_ext_eq {X} : forall (l1 l2 : list X), (forall i, nth_error l1 i = nth_error l2 i) -> l1 = l2.
+Proof.
+  induction l1 as [|a l1 IH]; intros l2 H.
+  - destruct l2; [reflexivity|]. specialize (H 0). discriminate.
+  - destruct l2 as [|b l2]; [specialize (H 0); discriminate|].
+    pose proof (H 0) as H0. cbn in H0. inv H0. f_equal. apply IH. intros i. exact (H (S i)).
+Qed.
+
 Section Proofs.
 Context {W C R : Type}.
 Variable wstep : W -> C -> W * R.
@@ -330,6 +346,195 @@ Proof.
     cbn [length seq map combine]. constructor; [|apply IH]. cbn. discriminate.
 Qed.
 
+(* ---------- any method over any list of target workers = the DummyVecEnv loop over those targets ---------- *)
+Notation dloop := (dloop wstep).
+Notation dhistory := (dhistory wstep).
+
+Lemma proj_replies_cons_eq : forall t ts (x : R) xs, proj_replies t (t :: ts) (x :: xs) = x :: proj_replies t ts xs.
+Proof. intros. unfold proj_replies. cbn. rewrite Nat.eqb_refl. reflexivity. Qed.
+Lemma proj_replies_cons_neq : forall i t ts (x : R) xs, t <> i -> proj_replies i (t :: ts) (x :: xs) = proj_replies i ts xs.
+Proof. intros. unfold proj_replies. cbn. destruct (Nat.eqb t i) eqn:E; [apply Nat.eqb_eq in E; congruence|reflexivity]. Qed.
+
+Lemma dloop_length : forall ts sts payload,
+  Forall (fun t => t < length sts) ts ->
+  length (fst (dloop sts ts payload)) = length sts /\ length (snd (dloop sts ts payload)) = length ts.
+Proof.
+  induction ts as [|t ts IH]; intros sts payload H; [cbn; auto|].
+  inversion_clear H as [|? ? H1 H2]. cbn [Subproc.dloop].
+  destruct (nth_error sts t) as [s|] eqn:E; [|apply nth_error_None in E; lia].
+  destruct (wstep s (payload t)) as [s' x].
+  specialize (IH (set_nth t s' sts) payload).
+  destruct (dloop (set_nth t s' sts) ts payload) as [sts' xs]. cbn [fst snd] in *.
+  rewrite set_nth_length in IH. destruct IH as [A B]; [exact H2|]. cbn. lia.
+Qed.
+
+(* sending to the targets, in order: every worker ends in its Dummy-loop state, its queue is extended by
+   exactly its own replies, in order *)
+Lemma seq_sends_targets : forall ts ws payload lg,
+  Forall (fun t => t < length ws) ts ->
+  exists ws',
+    seq_exec (mk_sconfig lg ws) (sends ts payload) = Some (mk_sconfig lg ws') /\
+    map (@sw_st W R) ws' = fst (dloop (map (@sw_st W R) ws) ts payload) /\
+    (forall i w, nth_error ws i = Some w ->
+       exists w', nth_error ws' i = Some w' /\
+                  sw_queue w' = sw_queue w ++ proj_replies i ts (snd (dloop (map (@sw_st W R) ws) ts payload))).
+Proof.
+  induction ts as [|t ts IH]; intros ws payload lg H.
+  - exists ws. cbn. split; [reflexivity|]. split; [reflexivity|].
+    intros i w Hw. exists w. rewrite app_nil_r. auto.
+  - inversion_clear H as [|? ? H1 H2].
+    cbn [sends map Subproc.seq_exec Subproc.seq_instr s_workers s_log Subproc.dloop].
+    destruct (nth_error ws t) as [w0|] eqn:E; [|apply nth_error_None in E; lia].
+    rewrite (map_nth_error (@sw_st W R) _ _ E).
+    destruct (wstep (sw_st w0) (payload t)) as [s' x] eqn:Hs.
+    set (ws1 := set_nth t (mk_sworker (sw_queue w0 ++ [x]) s') ws).
+    destruct (IH ws1 payload lg) as (ws' & E1 & E2 & E3).
+    { unfold ws1. rewrite set_nth_length. exact H2. }
+    fold (sends ts payload). exists ws'. split; [exact E1|].
+    assert (M : map (@sw_st W R) ws1 = set_nth t s' (map (@sw_st W R) ws)).
+    { unfold ws1. rewrite map_set_nth. reflexivity. }
+    rewrite M in E2, E3.
+    destruct (dloop (set_nth t s' (map (@sw_st W R) ws)) ts payload) as [sts' xs] eqn:D.
+    cbn [fst snd] in *. split; [exact E2|].
+    intros i w Hw. destruct (Nat.eq_dec t i) as [->|Ne].
+    + rewrite E in Hw. inv Hw.
+      destruct (E3 i (mk_sworker (sw_queue w ++ [x]) s')) as (w' & N & Q).
+      { unfold ws1. eapply nth_error_set_nth_eq; eauto. }
+      exists w'. split; [exact N|]. rewrite Q. cbn [sw_queue]. rewrite proj_replies_cons_eq, <- app_assoc. reflexivity.
+    + destruct (E3 i w) as (w' & N & Q).
+      { unfold ws1. rewrite nth_error_set_nth_neq by exact Ne. exact Hw. }
+      exists w'. split; [exact N|]. rewrite Q. rewrite proj_replies_cons_neq by exact Ne. reflexivity.
+Qed.
+
+(* receiving from the targets, in order, when every worker's queue starts with its own replies *)
+Lemma seq_recvs_targets : forall ts xs ws lg (rest : nat -> list R),
+  length xs = length ts ->
+  Forall (fun t => t < length ws) ts ->
+  (forall i w, nth_error ws i = Some w -> sw_queue w = proj_replies i ts xs ++ rest i) ->
+  exists ws',
+    seq_exec (mk_sconfig lg ws) (recvs (C:=C) ts) = Some (mk_sconfig (lg ++ combine ts xs) ws') /\
+    length ws' = length ws /\
+    (forall i w, nth_error ws i = Some w -> nth_error ws' i = Some (mk_sworker (rest i) (sw_st w))).
+Proof.
+  induction ts as [|t ts IH]; intros xs ws lg rest L H Q.
+  - destruct xs; [|discriminate]. exists ws. cbn [recvs map Subproc.seq_exec combine]. rewrite app_nil_r.
+    split; [reflexivity|]. split; [reflexivity|].
+    intros i w Hw. rewrite Hw. specialize (Q i w Hw). cbn in Q. destruct w; cbn in *. subst. reflexivity.
+  - destruct xs as [|x xs]; [discriminate|]. cbn in L. inversion_clear H as [|? ? H1 H2].
+    cbn [recvs map Subproc.seq_exec Subproc.seq_instr s_workers s_log].
+    destruct (nth_error ws t) as [w0|] eqn:E; [|apply nth_error_None in E; lia].
+    rewrite (Q t w0 E), proj_replies_cons_eq. cbn [app].
+    set (ws1 := set_nth t (mk_sworker (proj_replies t ts xs ++ rest t) (sw_st w0)) ws).
+    destruct (IH xs ws1 (lg ++ [(t, x)]) rest) as (ws' & E1 & E2 & E3).
+    + lia.
+    + unfold ws1. rewrite set_nth_length. exact H2.
+    + intros i w Hw. destruct (Nat.eq_dec t i) as [->|Ne].
+      * unfold ws1 in Hw. rewrite (nth_error_set_nth_eq _ _ _ _ E) in Hw. inv Hw. reflexivity.
+      * unfold ws1 in Hw. rewrite nth_error_set_nth_neq in Hw by exact Ne.
+        rewrite (Q i w Hw). rewrite proj_replies_cons_neq by exact Ne. reflexivity.
+    + fold (recvs (C:=C) ts). exists ws'. split.
+      * rewrite E1. cbn [combine]. rewrite <- app_assoc. reflexivity.
+      * split; [rewrite E2; unfold ws1; apply set_nth_length|].
+        intros i w Hw. destruct (Nat.eq_dec t i) as [->|Ne].
+        -- rewrite E in Hw. inv Hw.
+           rewrite (E3 i (mk_sworker (proj_replies i ts xs ++ rest i) (sw_st w))); [reflexivity|].
+           unfold ws1. eapply nth_error_set_nth_eq; eauto.
+        -- apply E3. unfold ws1. rewrite nth_error_set_nth_neq by exact Ne. exact Hw.
+Qed.
+
+(* one method call over arbitrary in-range targets (repetitions and any order allowed), all queues empty
+   before: it runs (so it cannot deadlock), the parent receives the Dummy-loop results in target order,
+   the workers end in the Dummy-loop states with empty queues again *)
+Theorem seq_targets_method : forall ts sts payload lg,
+  Forall (fun t => t < length sts) ts ->
+  seq_exec (mk_sconfig lg (map (fun s => mk_sworker [] s) sts)) (sends ts payload ++ recvs ts)
+  = Some (mk_sconfig (lg ++ combine ts (snd (dloop sts ts payload)))
+                     (map (fun s => mk_sworker [] s) (fst (dloop sts ts payload)))).
+Proof.
+  intros ts sts payload lg H.
+  set (ws := map (fun s => mk_sworker (R:=R) [] s) sts).
+  assert (Ms : map (@sw_st W R) ws = sts).
+  { unfold ws. rewrite map_map. cbn. apply map_id. }
+  destruct (seq_sends_targets ts ws payload lg) as (ws1 & E1 & E2 & E3).
+  { unfold ws. rewrite map_length. exact H. }
+  rewrite Ms in E2, E3.
+  destruct (dloop_length ts sts payload H) as [L1 L2].
+  assert (Lw1 : length ws1 = length sts).
+  { rewrite <- (map_length (@sw_st W R) ws1), E2. exact L1. }
+  destruct (seq_recvs_targets ts (snd (dloop sts ts payload)) ws1 lg (fun _ => [])) as (ws2 & F1 & F2 & F3).
+  - exact L2.
+  - rewrite Lw1. exact H.
+  - intros i w1 Hw1.
+    assert (Li : i < length ws) by (unfold ws; rewrite map_length, <- Lw1; apply nth_error_Some; rewrite Hw1; discriminate).
+    destruct (nth_error ws i) as [w|] eqn:Hw; [|apply nth_error_None in Hw; lia].
+    destruct (E3 i w Hw) as (w' & N & Q). rewrite Hw1 in N. injection N as N. subst w'.
+    rewrite Q, app_nil_r.
+    assert (Hq : sw_queue w = []).
+    { unfold ws in Hw. rewrite nth_error_map in Hw. destruct (nth_error sts i); [|discriminate]. cbn in Hw. injection Hw as Hw. rewrite <- Hw. reflexivity. }
+    rewrite Hq. reflexivity.
+  - rewrite seq_exec_app, E1, F1. f_equal. f_equal.
+    apply nth_error_ext_eq. intros i.
+    destruct (nth_error ws1 i) as [w1|] eqn:Hw1.
+    + rewrite (F3 i w1 Hw1). rewrite nth_error_map.
+      assert (Hn : nth_error (fst (dloop sts ts payload)) i = Some (sw_st w1)).
+      { rewrite <- E2. apply map_nth_error. exact Hw1. }
+      rewrite Hn. reflexivity.
+    + assert (length ws1 <= i) by (apply nth_error_None; exact Hw1).
+      transitivity (@None (sworker W R)); [apply nth_error_None; lia|symmetry; apply nth_error_None; rewrite map_length; lia].
+Qed.
+
+(* a whole history of method calls (step, reset, get_attr, set_attr, env_method, ... over any index lists):
+   it runs sequentially - hence, by no_deadlock, can be completed from every reachable configuration - and
+   returns the Dummy-loop results *)
+Definition calls_in_range (n : nat) (calls : list (list nat * (nat -> C))) : Prop :=
+  Forall (fun c => Forall (fun t => t < n) (fst c)) calls.
+
+Lemma dhistory_length : forall calls sts, calls_in_range (length sts) calls -> length (fst (dhistory sts calls)) = length sts.
+Proof.
+  induction calls as [|[ts p] calls IH]; intros sts H; [reflexivity|].
+  inversion_clear H as [|? ? H1 H2]. cbn [Subproc.dhistory].
+  destruct (dloop_length ts sts p H1) as [L _].
+  destruct (dloop sts ts p) as [sts1 xs]. cbn [fst] in L.
+  specialize (IH sts1). destruct (dhistory sts1 calls) as [sts2 lg]. cbn [fst] in *.
+  rewrite IH; [exact L|]. unfold calls_in_range. rewrite L. exact H2.
+Qed.
+
+Theorem seq_history : forall calls sts lg,
+  calls_in_range (length sts) calls ->
+  seq_exec (mk_sconfig lg (map (fun s => mk_sworker [] s) sts)) (history_prog calls)
+  = Some (mk_sconfig (lg ++ snd (dhistory sts calls)) (map (fun s => mk_sworker [] s) (fst (dhistory sts calls)))).
+Proof.
+  induction calls as [|[ts p] calls IH]; intros sts lg H.
+  - cbn. rewrite app_nil_r. reflexivity.
+  - inversion_clear H as [|? ? H1 H2]. cbn [history_prog flat_map method_prog fst snd].
+    rewrite seq_exec_app. cbn [fst snd] in H1. unfold method_prog at 1. cbn [fst snd]. rewrite (seq_targets_method ts sts p lg H1).
+    cbn [Subproc.dhistory]. destruct (dloop_length ts sts p H1) as [L _].
+    destruct (dloop sts ts p) as [sts1 xs]. cbn [fst snd] in *.
+    fold (history_prog calls). rewrite IH by (unfold calls_in_range; rewrite L; exact H2).
+    destruct (dhistory sts1 calls) as [sts2 lg2]. cbn [fst snd]. rewrite <- app_assoc. reflexivity.
+Qed.
+
+(* every schedule, whole histories: the parent of the protocol model receives exactly the Dummy-loop results *)
+Theorem history_any_schedule : forall calls sts sched cfg',
+  calls_in_range (length sts) calls ->
+  exec (init (history_prog calls) sts) sched = Some cfg' -> pc cfg' = [] ->
+  log cfg' = snd (dhistory sts calls).
+Proof.
+  intros calls sts sched cfg' H E P.
+  destruct (schedule_independence _ _ _ _ E P) as (sq & S & L).
+  unfold sinit in S. rewrite (seq_history calls sts [] H) in S. inv S. exact L.
+Qed.
+
+Theorem history_no_deadlock : forall calls sts sched cfg,
+  calls_in_range (length sts) calls ->
+  exec (init (history_prog calls) sts) sched = Some cfg ->
+  exists sched' cfg', exec cfg sched' = Some cfg' /\ pc cfg' = [] /\ log cfg' = snd (dhistory sts calls).
+Proof.
+  intros calls sts sched cfg H E.
+  eapply no_deadlock in E; [|unfold sinit; apply (seq_history calls sts [] H)].
+  exact E.
+Qed.
+
 End Proofs.
 
 (* ---------- interface lemmas: the regenerated communication skeleton is the one of the model ---------- *)
@@ -427,5 +632,120 @@ Proof.
   - cbn. repeat split; constructor.
   - cbn [length seq combine map fst snd sw_st sw_queue]. destruct (IH (S k)) as (I1 & I2 & I3 & I4 & I5).
     rewrite I1, I2, I3, I4. unfold step_reply, step_state.
+    repeat split. constructor; [reflexivity|exact I5].
+Qed.
+
+(* ---------- scripted histories: the program built from the regenerated skeletons is a history of method
+   calls, so under EVERY schedule it returns the DummyVecEnv-loop results and never deadlocks ---------- *)
+Lemma calls_prog_is_history : forall cs n seeds opts,
+  calls_prog n seeds opts cs = history_prog (calls_methods n seeds opts cs).
+Proof.
+  induction cs as [|c cs IH]; intros n seeds opts; [reflexivity|].
+  destruct c; cbn [calls_prog calls_methods history_prog flat_map]; rewrite ?IH; try reflexivity;
+    unfold method_prog, skel_prog; cbn [flat_map phase_prog model_skel_reset model_skel_step model_skel_targets fst snd app];
+    rewrite ?app_nil_r, <- ?app_assoc; reflexivity.
+Qed.
+
+Lemma calls_methods_in_range : forall cs n seeds opts,
+  Forall (call_targets_ok n) cs -> calls_in_range n (calls_methods n seeds opts cs).
+Proof.
+  induction cs as [|c cs IH]; intros n seeds opts H; [constructor|].
+  inversion_clear H as [|? ? H1 H2].
+  assert (A : Forall (fun t => t < n) (seq 0 n)) by (apply Forall_forall; intros t Ht; apply in_seq in Ht; lia).
+  destruct c; cbn [calls_methods]; try (apply IH; assumption); constructor; try (apply IH; assumption); cbn; auto.
+Qed.
+
+Theorem scripted_history_any_schedule : forall scs flags cs sched cfg',
+  let n := length scs in
+  let prog := calls_prog n (repeat None n) (repeat None n) cs in
+  Forall (call_targets_ok n) cs ->
+  exec sworker_step (init prog (winitw scs flags)) sched = Some cfg' -> pc cfg' = [] ->
+  log cfg' = snd (dhistory sworker_step (winitw scs flags) (calls_methods n (repeat None n) (repeat None n) cs)).
+Proof.
+  intros scs flags cs sched cfg' n prog H E P. unfold prog in E. rewrite calls_prog_is_history in E.
+  eapply history_any_schedule; eauto.
+  replace (length (winitw scs flags)) with n.
+  - apply calls_methods_in_range. exact H.
+  - unfold winitw, n. rewrite map_length, combine_length, seq_length. lia.
+Qed.
+
+Theorem scripted_history_no_deadlock : forall scs flags cs sched cfg,
+  let n := length scs in
+  let prog := calls_prog n (repeat None n) (repeat None n) cs in
+  Forall (call_targets_ok n) cs ->
+  exec sworker_step (init prog (winitw scs flags)) sched = Some cfg ->
+  exists sched' cfg', exec sworker_step cfg sched' = Some cfg' /\ pc cfg' = [] /\
+    log cfg' = snd (dhistory sworker_step (winitw scs flags) (calls_methods n (repeat None n) (repeat None n) cs)).
+Proof.
+  intros scs flags cs sched cfg n prog H E. unfold prog in E. rewrite calls_prog_is_history in E.
+  eapply history_no_deadlock; eauto.
+  replace (length (winitw scs flags)) with n.
+  - apply calls_methods_in_range. exact H.
+  - unfold winitw, n. rewrite map_length, combine_length, seq_length. lia.
+Qed.
+
+(* reset() over all workers = the DummyVecEnv reset loop of Model/VecEnv.v *)
+Definition reset_reply_w (seed opt : option Z) (w : wstate) : sres := snd (sworker_step w (CmdReset seed opt)).
+Definition reset_state_w (seed opt : option Z) (w : wstate) : wstate := fst (sworker_step w (CmdReset seed opt)).
+Definition rreply_of (p : Z * option Z) : sres := ResReset (fst p) (snd p).
+
+Lemma skipn_nth_cons_gen {X} : forall (l : list X) k d, k < length l -> skipn k l = nth k l d :: skipn (S k) l.
+Proof.
+  induction l as [|x l IH]; intros k d H; [cbn in H; lia|].
+  destruct k; [reflexivity|]. cbn [skipn nth]. apply IH. cbn in H. lia.
+Qed.
+
+Lemma reset_facts : forall w seed opt e' ri' ob c,
+  sub_reset (A:=Z) sc_reset (ws_env w) seed opt = (e', ri', ob, c) ->
+  ws_env (reset_state_w seed opt w) = e' /\ ws_ri (reset_state_w seed opt w) = ri' /\ reset_reply_w seed opt w = rreply_of (ob, ri').
+Proof.
+  intros w seed opt e' ri' ob c H. unfold reset_state_w, reset_reply_w, rreply_of. cbn [sworker_step]. rewrite H. cbn. auto.
+Qed.
+
+Lemma reset_loop_workers : forall (ws : list wstate) k (seeds opts : list (option Z)),
+  length seeds = k + length ws -> length opts = k + length ws ->
+  let r := reset_loop (A:=Z) sc_reset (map ws_env ws) (skipn k seeds) (skipn k opts) in
+  let iw := combine (seq k (length ws)) ws in
+  fst (fst (fst r)) = map (fun p => ws_env (reset_state_w (nth (fst p) seeds None) (nth (fst p) opts None) (snd p))) iw /\
+  snd (fst (fst r)) = map (fun p => ws_ri (reset_state_w (nth (fst p) seeds None) (nth (fst p) opts None) (snd p))) iw /\
+  map rreply_of (combine (snd (fst r)) (snd (fst (fst r))))
+  = map (fun p => reset_reply_w (nth (fst p) seeds None) (nth (fst p) opts None) (snd p)) iw.
+Proof.
+  induction ws as [|w ws IH]; intros k seeds opts L1 L2.
+  - cbn. destruct (skipn k seeds); destruct (skipn k opts); cbn; auto.
+  - cbn [length] in L1, L2. cbv zeta.
+    rewrite (skipn_nth_cons_gen seeds k None) by lia. rewrite (skipn_nth_cons_gen opts k None) by lia.
+    cbn [map length seq combine reset_loop].
+    specialize (IH (S k) seeds opts). cbv zeta in IH.
+    destruct (sub_reset (A:=Z) sc_reset (ws_env w) (nth k seeds None) (nth k opts None)) as [[[e' ri'] ob] c] eqn:Hsub.
+    destruct (reset_loop (A:=Z) sc_reset (map ws_env ws) (skipn (S k) seeds) (skipn (S k) opts)) as [[[es rs] os] cs] eqn:Lp.
+    cbn [fst snd] in *. destruct IH as (A & B & D); [lia|lia|].
+    destruct (reset_facts _ _ _ _ _ _ _ Hsub) as (F1 & F2 & F3).
+    cbn [combine map fst snd]. rewrite F1, F2, F3, D, A, B. auto.
+Qed.
+
+Theorem subproc_reset_eq_dummy_reset : forall (ws : list wstate) (seeds opts : list (option Z)),
+  length seeds = length ws -> length opts = length ws ->
+  let n := length ws in
+  let r := reset_loop (A:=Z) sc_reset (map ws_env ws) seeds opts in
+  exists sq,
+    seq_exec sworker_step (mk_sconfig [] (map (fun s => mk_sworker [] s) ws))
+             (sends (seq 0 n) (fun i => CmdReset (nth i seeds None) (nth i opts None)) ++ recvs (seq 0 n)) = Some sq /\
+    map fst (s_log sq) = seq 0 n /\
+    map snd (s_log sq) = map rreply_of (combine (snd (fst r)) (snd (fst (fst r)))) /\
+    map (fun w => ws_env (sw_st w)) (s_workers sq) = fst (fst (fst r)) /\
+    map (fun w => ws_ri (sw_st w)) (s_workers sq) = snd (fst (fst r)) /\
+    Forall (fun w => sw_queue w = []) (s_workers sq).
+Proof.
+  intros ws seeds opts L1 L2 n r.
+  pose proof (reset_loop_workers ws 0 seeds opts L1 L2) as H. cbv zeta in H. cbn [skipn] in H.
+  fold r in H. destruct H as (A & B & D).
+  eexists. split; [apply seq_all_method|]. cbn [s_log s_workers app]. fold n.
+  rewrite D, A, B. clear A B D r. unfold n. clear n L1 L2.
+  generalize 0 as k.
+  induction ws as [|w ws IH]; intros k.
+  - cbn. repeat split; constructor.
+  - cbn [length seq combine map fst snd sw_st sw_queue]. destruct (IH (S k)) as (I1 & I2 & I3 & I4 & I5).
+    rewrite I1, I2, I3, I4. unfold reset_reply_w, reset_state_w.
     repeat split. constructor; [reflexivity|exact I5].
 Qed.
